@@ -380,6 +380,38 @@ def check(ctx):
                          'with a %s stdout: rc=%d stderr=%r, %d lines for %d problems' % (enc, rc2, e2[-200:], len(got2), len(exp)))
         ctx.evaluations += 4
     ctx.count('cli_runs', done)
+    # ---- (c2) several files at once with worker processes, one of them without any problem: still exactly one line per problem
+    multi = [r['path'] for (i, text, ext), r in zip(payloads, results) if isinstance(r, dict) and 'crash' not in r and r['tags']][:3]
+    clean = os.path.join(common.WORK, 'c02', 'clean.po')
+    with open(clean, 'w', encoding='utf-8') as f:
+        f.write('msgid ""\nmsgstr ""\n"Project-Id-Version: gizmo 1.0\\n"\n"Report-Msgid-Bugs-To: bugs@gizmo.example.net\\n"\n"POT-Creation-Date: 2012-11-01 14:42+0100\\n"\n'
+                '"PO-Revision-Date: 2012-11-01 14:42+0100\\n"\n"Last-Translator: Jakub Wilk <jwilk@jwilk.net>\\n"\n"Language-Team: Polish <pl@gizmo.example.net>\\n"\n'
+                '"Language: pl\\n"\n"MIME-Version: 1.0\\n"\n"Content-Type: text/plain; charset=UTF-8\\n"\n"Content-Transfer-Encoding: 8bit\\n"\n'
+                '"Plural-Forms: nplurals=3; plural=n==1 ? 0 : n%10>=2 && n%10<=4 && (n%100<10 || n%100>=20) ? 1 : 2;\\n"\n\nmsgid "a cat"\nmsgstr "kot"\n')
+    if multi:
+        single = {}
+        for pth in [clean] + multi:
+            o, e, rc = cli_lines(pth, False)
+            single[pth] = o
+        if single[clean] != '':
+            ctx.notes.append('the clean catalog is not problem-free: %r' % single[clean][:200])
+        for order in ([clean] + multi, multi[:1] + [clean] + multi[1:], multi + [clean], [clean, clean] + multi[:1]):
+            for j in ('2', '3'):
+                env = dict(os.environ, PYTHONPATH=common.REPO, TERM='xterm')
+                p = subprocess.run([common.PY, os.path.join(common.REPO, 'i18nspector'), '-j', j] + order, env=env, stdout=subprocess.PIPE, stderr=subprocess.PIPE, timeout=120)
+                out = p.stdout.decode('utf-8', 'replace')
+                want = ''.join(single[x] for x in order)
+                ctx.evaluations += 1
+                ctx.count('cli_multi_runs')
+                lines_ = out.split('\n')[:-1] if out.endswith('\n') else out.split('\n')
+                bad = [l for l in lines_ if not LINE_RE.match(l)] if out else []
+                if bad:
+                    ctx.fail('line-grammar', {'files': [os.path.basename(x) for x in order], 'options': ['-j', j]}, 'stdout line of a multi-file run is not a diagnostic line: %r' % bad[0])
+                elif out != want:
+                    ctx.fail('cli-lines', {'files': [os.path.basename(x) for x in order], 'options': ['-j', j]},
+                             'a -j %s run over several files printed %d lines for %d problems' % (j, len(lines_) if out else 0, want.count('\n')))
+                else:
+                    ctx.nontriv(('multi', tuple(order), j))
     # ---- (d) packages: --unpack-deb on a .deb and a native .dsc holding hostile catalogs: nothing but diagnostic lines on stdout
     if shutil.which('dpkg-deb'):
         from harness import c17
